@@ -33,12 +33,53 @@ static int do_copy(std::string const& in, std::string const& out, size_t b) {
   }
   return 0;
 }
+// "cuts": feed every listed prefix of the input to the reader (in memory), copying to a writer; report per cut whether the
+// reader raised and whether what had been written before is a line/byte prefix of the output of the complete run.
+#include <sstream>
+#include <vector>
+template <class R, class W>
+static int do_cuts(std::string const& in, std::string const& cutsfile, size_t b) {
+  (void)b;
+  std::ifstream f(in, std::ios::binary);
+  std::string data((std::istreambuf_iterator<char>(f)), std::istreambuf_iterator<char>());
+  std::vector<size_t> cuts;
+  { std::ifstream cf(cutsfile); size_t c; while (cf >> c) cuts.push_back(c); }
+  cuts.insert(cuts.begin(), data.size());           // the complete run first
+  std::string full;
+  for (size_t k = 0; k < cuts.size(); k++) {
+    size_t c = cuts[k];
+    std::istringstream iss(data.substr(0, c));
+    std::ostringstream oss;
+    std::string status = "OK", what;
+    try {
+      W w(oss);
+      try {
+        R r(iss);
+        r.CopyTo(w%(bufargs)s);
+        r.Close();
+        w.Close();
+      } catch (...) { w.Flush(); throw; }
+    } catch (std::exception const& e) { status = "EXC"; what = e.what(); }
+    std::string out = oss.str();
+    if (k == 0) { full = out; std::cout << "FULL " << status << " " << out.size() << " " << what << std::endl; continue; }
+    // complete lines only (NDJSON) / raw prefix (binary)
+    size_t lastnl = out.rfind('\n');
+    std::string complete = lastnl == std::string::npos ? std::string() : out.substr(0, lastnl + 1);
+    bool prefix_ok = full.compare(0, complete.size(), complete) == 0;
+    size_t nlines = 0; for (char ch : complete) if (ch == '\n') nlines++;
+    for (auto& ch : what) if (ch == '\n') ch = ' ';
+    std::cout << "CUT " << c << " " << status << " " << nlines << " " << (prefix_ok ? 1 : 0) << " " << what << std::endl;
+  }
+  return 0;
+}
+
 int main(int argc, char** argv) {
   if (argc < 6) { std::cerr << "usage" << std::endl; return 3; }
   std::string cmd = argv[1], infmt = argv[2], outfmt = argv[3], in = argv[4], out = argv[5];
   size_t b = argc > 6 ? std::stoul(argv[6]) : 1;
   using BR = %(ns)s::binary::%(proto)sReader; using BW = %(ns)s::binary::%(proto)sWriter;
 %(ndjson_using)s
+%(cuts_main)s
   if (infmt == "binary" && outfmt == "binary") return do_copy<BR, BW>(in, out, b);
 %(ndjson_cases)s
   std::cerr << "unsupported" << std::endl;
@@ -54,6 +95,8 @@ def cpp_build(gen_dir, ns_cpp, proto, n_streams, out_exe, ndjson=True, sanitize=
     main = CPP_MAIN % {
         "proto": proto, "ns": ns_cpp,
         "bufargs": "".join(", b" for _ in range(n_streams)),
+        "cuts_main": ('  if (cmd == "cuts" && infmt == "binary") return do_cuts<BR, JW>(in, out, b);\n'
+                      '  if (cmd == "cuts" && infmt == "ndjson") return do_cuts<JR, JW>(in, out, b);') if ndjson else "",
         "ndjson_inc": '#include "ndjson/protocols.h"' if ndjson else "",
         "ndjson_using": ("  using JR = %s::ndjson::%sReader; using JW = %s::ndjson::%sWriter;" % (ns_cpp, proto, ns_cpp, proto)) if ndjson else "",
         "ndjson_cases": ('  if (infmt == "binary" && outfmt == "ndjson") return do_copy<BR, JW>(in, out, b);\n'
@@ -245,3 +288,37 @@ def run_calls(exe_or_py, cmd, fmt, file, script, timeout=60):
     """script: list of call strings.  Returns list of output lines (OPEN / OK ... / VAL ... / EXC ...)."""
     rc, so, se = run(exe_or_py + [cmd, fmt, file], input=("\n".join(script) + "\n").encode(), timeout=timeout)
     return rc, [l for l in so.splitlines() if l.strip()], se
+
+
+def cpp_cuts(exe, infmt, infile, cuts, bufsize=1, timeout=600):
+    """-> (full_status, {cut: (status, nlines, prefix_ok, what)}, raw stderr, rc)"""
+    cf = infile + ".cuts"
+    with open(cf, "w") as f:
+        f.write("\n".join(str(c) for c in cuts) + "\n")
+    env = dict(os.environ)
+    env["ASAN_OPTIONS"] = "detect_leaks=0:abort_on_error=0:exitcode=77"
+    env["UBSAN_OPTIONS"] = "halt_on_error=1:exitcode=78:print_stacktrace=1"
+    rc, so, se = run([exe, "cuts", infmt, "ndjson", infile, cf, str(bufsize)], timeout=timeout, env=env)
+    full, res = None, {}
+    for l in so.splitlines():
+        a = l.split(" ", 5)
+        if a[0] == "FULL":
+            full = a[1]
+        elif a[0] == "CUT":
+            res[int(a[1])] = (a[2], int(a[3]), a[4] == "1", a[5] if len(a) > 5 else "")
+    return full, res, se, rc
+
+
+def py_cuts(pkg_parent, module, proto, infmt, infile, cuts, timeout=900):
+    cf = infile + ".cuts"
+    with open(cf, "w") as f:
+        f.write("\n".join(str(c) for c in cuts) + "\n")
+    rc, so, se = run([PY, PYDRV, pkg_parent, module, proto, "cuts", infmt, "ndjson", infile, cf], timeout=timeout)
+    full, res = None, {}
+    for l in so.splitlines():
+        a = l.split(" ", 5)
+        if a[0] == "FULL":
+            full = a[1]
+        elif a[0] == "CUT":
+            res[int(a[1])] = (a[2], int(a[3]), a[4] == "1", a[5] if len(a) > 5 else "")
+    return full, res, se, rc
